@@ -9,7 +9,7 @@ import ast
 
 from sa import fd
 from sa.model import AnalysisError, walk_no_nested, norm, mangle, call_name, is_self_call
-from sa.util import (module_resolver, ClassGraph, fact_atom, decorator_names, self_calls, attr_calls, eq_const_fact, raise_name,
+from sa.util import (fact_call, module_resolver, ClassGraph, fact_atom, decorator_names, self_calls, attr_calls, eq_const_fact, raise_name,
                      const_value, bound_arg, attr_writes)
 from sa.consteval import TOP
 from .roles import ClientRoles
@@ -208,7 +208,7 @@ def run(ctx):
         cfg = ctx.cfg(f)
 
         def mech_success(fact):
-            e, pol = fact_atom(fact)
+            e, pol = fact_call(fact)
             if pol is not True or not isinstance(e, ast.Call):
                 return False
             fn = e.func
